@@ -710,7 +710,7 @@ impl Interface {
         enum EgressError {
             Exhausted,
             Dispatch,
-            #[cfg(feature = "proto-ipv4-fragmentation")]
+            #[cfg(feature = "_proto-fragmentation")]
             FragmenterBusy,
         }
 
@@ -734,6 +734,16 @@ impl Interface {
                     && response.ip_repr().buffer_len() > inner.caps.ip_mtu()
                     && !self.fragmenter.finished()
                 {
+                    return Err(EgressError::FragmenterBusy);
+                }
+
+                // The same fragmenter holds the 6LoWPAN packet that is being sent in fragments:
+                // the next packet of any socket waits until its last fragment is out.
+                #[cfg(all(
+                    feature = "medium-ieee802154",
+                    feature = "proto-sixlowpan-fragmentation"
+                ))]
+                if matches!(inner.caps.medium, Medium::Ieee802154) && !self.fragmenter.finished() {
                     return Err(EgressError::FragmenterBusy);
                 }
 
@@ -826,7 +836,7 @@ impl Interface {
                     );
                 }
                 // Retried once the last fragment of the previous packet is sent.
-                #[cfg(feature = "proto-ipv4-fragmentation")]
+                #[cfg(feature = "_proto-fragmentation")]
                 Err(EgressError::FragmenterBusy) => {}
                 Ok(()) => {}
             }
